@@ -29,17 +29,17 @@ type simProvider struct {
 	w  *World
 	mu sync.Mutex
 	// next is the configuration served by the next Retrieve
-	next      *topo
-	nextErr   error // Retrieve fails
-	corrupt   bool  // serve a configuration that does not validate
+	next    *topo
+	nextErr error // Retrieve fails
+	corrupt bool  // serve a configuration that does not validate
 	// unbuildable: serve a configuration that validates but cannot be built (a connector used as exporter only): the
 	// failure happens inside service.New
 	unbuildable bool
-	watcher   confmap.WatcherFunc
-	retrieves int
-	shutdowns int
-	closes    int
-	served    []string
+	watcher     confmap.WatcherFunc
+	retrieves   int
+	shutdowns   int
+	closes      int
+	served      []string
 	// nested: the served configuration holds a reference to a value of the second provider (${simv:...})
 	nested bool
 	// handedOut: values returned by Retrieve (each has a closer that must run exactly once)
